@@ -576,22 +576,30 @@ func (v *parser_) parseIntrinsic() (
 	}
 	_, token, ok = v.parseToken(ComplexToken, "")
 	if ok {
-		intrinsic, _ = stc.ParseComplex(token.GetValue(), 128)
+		var complex_, err = stc.ParseComplex(token.GetValue(), 128)
+		v.rejectLiteral(token, err)
+		intrinsic = complex_
 		return intrinsic, token, true
 	}
 	_, token, ok = v.parseToken(FloatToken, "")
 	if ok {
-		intrinsic, _ = stc.ParseFloat(token.GetValue(), 64)
+		var float, err = stc.ParseFloat(token.GetValue(), 64)
+		v.rejectLiteral(token, err)
+		intrinsic = float
 		return intrinsic, token, true
 	}
 	_, token, ok = v.parseToken(HexadecimalToken, "")
 	if ok {
-		intrinsic, _ = stc.ParseUint(token.GetValue()[2:], 16, 64)
+		var unsigned, err = stc.ParseUint(token.GetValue()[2:], 16, 64)
+		v.rejectLiteral(token, err)
+		intrinsic = unsigned
 		return intrinsic, token, true
 	}
 	_, token, ok = v.parseToken(IntegerToken, "")
 	if ok {
-		intrinsic, _ = stc.ParseInt(token.GetValue(), 10, 64)
+		var integer, err = stc.ParseInt(token.GetValue(), 10, 64)
+		v.rejectLiteral(token, err)
+		intrinsic = integer
 		return intrinsic, token, true
 	}
 	_, token, ok = v.parseToken(NilToken, "")
@@ -602,19 +610,34 @@ func (v *parser_) parseIntrinsic() (
 	_, token, ok = v.parseToken(RuneToken, "")
 	if ok {
 		var matches = Scanner().MatchToken(RuneToken, token.GetValue())
-		var match, _ = stc.Unquote(matches.GetValue(1))
+		var match, err = stc.Unquote(matches.GetValue(1))
+		v.rejectLiteral(token, err)
 		intrinsic, _ = utf.DecodeRuneInString(match)
 		return intrinsic, token, true
 	}
 	_, token, ok = v.parseToken(StringToken, "")
 	if ok {
 		var matches = Scanner().MatchToken(StringToken, token.GetValue())
-		intrinsic, _ = stc.Unquote(matches.GetValue(1))
+		var string_, err = stc.Unquote(matches.GetValue(1))
+		v.rejectLiteral(token, err)
+		intrinsic = string_
 		return intrinsic, token, true
 	}
 
 	// NOTE: ok may be true or false.
 	return intrinsic, token, ok
+}
+
+// This private instance method panics with a syntax diagnostic when a literal
+// that was accepted by the scanner cannot be represented exactly (for example
+// an integer that is out of range or an ill-formed escape sequence) so that
+// the literal is never silently replaced by a different value.
+func (v *parser_) rejectLiteral(token TokenLike, err error) {
+	if err != nil {
+		var message = v.formatError(token)
+		message += "The literal cannot be represented: " + err.Error() + "\n"
+		panic(message)
+	}
 }
 
 func (v *parser_) parseItems() (
